@@ -99,13 +99,12 @@ func (s *ssut) check(format string, a ...any) bool {
 		return false
 	}
 	after := func() string { return fmt.Sprintf(format, a...) }
+	// Values is read before anything else is called (Len() comes last): "after
+	// every call" means as the call under test left it, and a later call that
+	// tidies up must not be credited to it
 	vals := s.s.Values
-	ln := -1
-	if !guard(c, "Len", func() { ln = s.s.Len() }) {
-		return false
-	}
-	if ln != s.n || len(vals) != s.n {
-		c.Failf("slice-len", "after %s: Len() = %d, len(Values) = %d, the multiset model has %d elements", after(), ln, len(vals), s.n)
+	if len(vals) != s.n {
+		c.Failf("slice-len", "after %s: len(Values) = %d, the multiset model has %d elements", after(), len(vals), s.n)
 		return false
 	}
 	s.tick++
@@ -131,6 +130,14 @@ func (s *ssut) check(format string, a ...any) bool {
 			c.Failf("slice-order", "after %s: Values[%d] = %v precedes its parent Values[%d] = %v (order %s): Values %v violates the heap order", after(), i, v, (i-1)/2, vals[(i-1)/2], s.ord.name, iv(vals))
 			return false
 		}
+	}
+	ln := -1
+	if !guard(c, "Len", func() { ln = s.s.Len() }) {
+		return false
+	}
+	if ln != s.n {
+		c.Failf("slice-len", "after %s: Len() = %d, len(Values) = %d, the multiset model has %d elements", after(), ln, len(vals), s.n)
+		return false
 	}
 	c.Add(s.pfx+"order_checks", 1)
 	return true
@@ -474,6 +481,7 @@ func sliceRun(c *ev.Case, deep bool) {
 		size = rng.Pick(255, 256, 600, 1023, 1024, 2100)
 		nops = rng.Pick(1000, 2500)
 	}
+	c.Add(s.pfx+"order "+ord.name, 1)
 	if !s.build(initialKeys(rng, g, size, ord), ord, rng.Chance(1, 4)) {
 		return
 	}
